@@ -24,7 +24,7 @@ var hostileInts = []string{"0", "-0", "00", "007", "-1", "9223372036854775807", 
 // mutate applies one token- or byte-level mutation to a valid expression.
 func mutate(t *rapid.T, text string) (string, string) {
 	spans, ok := ast.TokenSpans(text)
-	kind := rapid.IntRange(0, 15).Draw(t, "mutation")
+	kind := rapid.IntRange(0, 16).Draw(t, "mutation")
 	if !ok || len(spans) == 0 {
 		kind = 9
 	}
@@ -151,6 +151,25 @@ func mutate(t *rapid.T, text string) (string, string) {
 			return strings.Join(out, ""), "unicode-char"
 		}
 		return join(out), "unicode-char"
+	case 16: // an operator character glued to an operator token (÷/ must not become //, |& not a new token ...)
+		var ops []int
+		for i, sp := range spans {
+			if strings.ContainsAny(sp, "/*+-<>=!|&%×÷−") && !strings.ContainsAny(sp, "`'\"abcdefghijklmnopqrstuvwxyz0123456789") {
+				ops = append(ops, i)
+			}
+		}
+		if len(ops) == 0 {
+			return join(spans), "identity"
+		}
+		i := ops[rapid.IntRange(0, len(ops)-1).Draw(t, "opat")]
+		out := append([]string{}, spans...)
+		ch := gen.Pick(t, "opchar", []string{"/", "÷", "×", "−", "*", "+", "-", "<", ">", "=", "!", "|", "&", "%", "//", "=="})
+		if rapid.Bool().Draw(t, "before") {
+			out[i] = ch + out[i]
+		} else {
+			out[i] = out[i] + ch
+		}
+		return join(out), "glued-operator"
 	case 15: // a character before or after the whole expression
 		ch := gen.Pick(t, "edgechar", []string{"\ufeff", "\u00a0", "\u2028", "\u0085", "\u000b", "\u000c", "\u3000", "\u200b", "\x00", "\x1a", "\x7f", ";", "#", "\ufffe", "\uffff", "\xef\xbb", "\xef\xbb\xbf\xef\xbb\xbf"})
 		if rapid.Bool().Draw(t, "leading") {
